@@ -106,34 +106,28 @@ func streamAuthInterceptor(auth Authenticate, access Access) grpc.StreamServerIn
 		//current GripQL schema does not support bi-directional streaming
 		//mainly because it can't be offered via HTTP based interface
 		if info.IsServerStream {
-			//ssWrapper := ServerStreamWrapper{ss}
-
+			//server streaming calls carry a single request message: read it,
+			//check the caller's permission on the graph it names, then hand
+			//the handler a stream that replays the request
 			switch info.FullMethod {
-			case "/gripql.Query/Traversal":
-				w, err := NewStreamOutWrapper[gripql.GraphQuery](ss)
-				if err != nil {
-					return status.Error(codes.Unknown, "Request error")
-				}
-				err = access.Enforce(user, w.Request.Graph, Query)
-				if err != nil {
-					return status.Error(codes.PermissionDenied, "PermissionDenied")
-				}
-				return handler(srv, w)
+			case "/gripql.Query/Traversal", "/gripql.Job/SearchJobs":
+				return enforceStreamOut(srv, ss, info, handler, user, access,
+					func(r *gripql.GraphQuery) string { return r.Graph })
 			case "/gripql.Job/ListJobs":
-				//TODO: filter list of jobs
-				return handler(srv, ss)
-			case "/gripql.Job/ResumeJob":
-				//TODO: filter list of jobs
-				return handler(srv, ss)
+				return enforceStreamOut(srv, ss, info, handler, user, access,
+					func(r *gripql.GraphID) string { return r.Graph })
 			case "/gripql.Job/ViewJob":
-				//TODO: filter list of jobs
-				return handler(srv, ss)
-			case "/gripql.Job/SearchJobs":
-				//TODO: filter list of jobs
-				return handler(srv, ss)
+				return enforceStreamOut(srv, ss, info, handler, user, access,
+					func(r *gripql.QueryJob) string { return r.Graph })
+			case "/gripql.Job/ResumeJob":
+				return enforceStreamOut(srv, ss, info, handler, user, access,
+					func(r *gripql.ExtendQuery) string { return r.Graph })
+			case "/gripql.Query/ListTables":
+				return enforceStreamOut(srv, ss, info, handler, user, access,
+					func(r *gripql.Empty) string { return "*" })
 			}
 			log.Errorf("Unknown streaming output: %#v", info)
-			return handler(srv, ss)
+			return status.Error(codes.Unknown, "Unknown method")
 		} else if info.IsClientStream {
 			if info.FullMethod == "/gripql.Edit/BulkAdd" {
 				//This checks permission on a per entity basis
@@ -149,6 +143,25 @@ func streamAuthInterceptor(auth Authenticate, access Access) grpc.StreamServerIn
 
 		return status.Error(codes.Unknown, "Unknown method")
 	}
+}
+
+// enforceStreamOut authorizes a server streaming call: the operation is the
+// one MethodMap assigns to the method, the graph is taken from the request.
+func enforceStreamOut[X any](srv interface{}, ss grpc.ServerStream, info *grpc.StreamServerInfo, handler grpc.StreamHandler,
+	user string, access Access, graph func(*X) string) error {
+	op, ok := MethodMap[info.FullMethod]
+	if !ok {
+		return status.Error(codes.Unknown, "Unknown method")
+	}
+	w, err := NewStreamOutWrapper[X](ss)
+	if err != nil {
+		return status.Error(codes.Unknown, "Request error")
+	}
+	err = access.Enforce(user, graph(&w.Request), op)
+	if err != nil {
+		return status.Error(codes.PermissionDenied, "PermissionDenied")
+	}
+	return handler(srv, w)
 }
 
 func getUnaryRequestGraph(req interface{}, info *grpc.UnaryServerInfo) (string, error) {
